@@ -864,7 +864,7 @@ def _build_tools():
     return ["--tools", out]
 
 prop("C20",
-     units=lambda tier: [Unit("c20", "c20.cpp", SHIPPED, cases=scale(tier, 2500, 40000), shards=16,
+     units=lambda tier: [Unit("c20", "c20.cpp", SHIPPED, cases=scale(tier, 2500, 25000), shards=16, timeout=3000 if tier == "quick" else 9000,
                               args=(lambda: _build_tools() + ["--bigfile", "1"]) if tier == "thorough" else _build_tools,
                               env={"SKV_TMP": skv._mk(os.path.join(skv.BUILD, "tmp"))})],
      level="exploration",
